@@ -11,7 +11,7 @@ import idx_common as I
 
 ID = "C01"
 LEAN_MODULES = ["CatiiProps.C01"]
-USES_TRANSLATOR = ['fit_dtype']   # CatiiProps/C01.lean imports Gen/FitDtype.lean through the dtype ladder of to_array
+USES_TRANSLATOR = ['fit_dtype', 'to_array']   # Gen/FitDtype.lean (the dtype ladder); Gen/ToArrayGen.lean: the 'not mapping' branch of to_array (tools/translate_toarray.py)
 RULE = ("exhaustive: all 1-D arrays of length <=5 and all 3x2 arrays over {0,1,2} x option grid (common omitted / each "
         "present value / an absent one; counts omitted / exact; mapping omitted / injective / many-to-one; input in C / Fortran order, as a transposed, strided or reversed view) x way back "
         "(dtype=int64 / default dtype / mapping); random: N in 0..400, 1..4 columns, alphabets of 1..4 values or >=5 "
